@@ -5,8 +5,10 @@ HERE = os.path.dirname(os.path.dirname(os.path.abspath(__file__)))
 import glob
 ent = json.load(open(os.path.join(HERE, "lib", "manifest_entries.json")))
 ent["claimed"] = {}
+allow = set(open(os.path.join(HERE, "lib", "claimed.txt")).read().split())   # integrated and verified by the integrator
 for f in sorted(glob.glob(os.path.join(HERE, "lib", "manifest.d", "C*.json"))):
-    ent["claimed"][os.path.basename(f)[:-5]] = json.load(open(f))
+    if os.path.basename(f)[:-5] in allow:
+        ent["claimed"][os.path.basename(f)[:-5]] = json.load(open(f))
 props = [json.loads(l)["id"] for l in open(os.path.join(HERE, "properties.jsonl"))]
 checks = []
 for pid in props:
